@@ -21,7 +21,7 @@ P = {
         "name": "history", "pkg": "./internal/rules", "test": "TestVerifC06",
         "overlay": {"internal/rules/zz_verif_c06_test.go": "c06/c06_test.go"},
         "eval_module": "Run.Eval_C06", "check_term": "check false (%s)" % _FIXES,
-        "n_quick": 1200, "n_thorough": 30000, "shard": 40,
+        "n_quick": 1200, "n_thorough": 24000, "shard": 40,
         "findings": {1: "C06-F1", 2: "C06-F2", 3: "C06-F3", 4: "C06-F4", 5: "C06-F5", 6: "C06-F6"},
     }],
     "rule": "histories of 2..25 rule-set creations / updates / deletions over 1..3 sources through the REAL rule-set processor "
@@ -46,8 +46,9 @@ P = {
                 "rule hash modelled by its pre-image (the whole definition); object identity of rules and routes (pointer comparison "
                 "in slices.Contains and, since fix 003095f, in the value matcher of removeRulesFrom) is modelled by structural "
                 "equality: the same unless two equal rule objects are loaded at once, which needs duplicate ids in a set (C06-F6) or "
-                "the creation of an existing set; on those histories (about 8 % of the generated ones) models and implementation are "
-                "not compared, only the implementation's own history-vs-fresh comparison is evaluated",
+                "the creation of an existing set; from the step after that happened in a history (a few percent of the generated ones) "
+                "models and implementation are not compared any more, only the implementation's own history-vs-fresh comparison "
+                "is evaluated",
                 "the rule factory behind the real rule-set processor is a stub that turns a config.Rule into a ruleImpl (id, source, "
                 "routes, methods, backtracking flag, hash = the real config.Rule.Hash()); rule_factory_impl.go is property C14",
                 "sortStaticChildren/priority left out of the transcription (only permutes children searched by unique first byte)"],
@@ -59,7 +60,7 @@ P = {
                   "incompatible wildcard names / expression owned by another set) and then leaves the state unchanged (the latter "
                   "unconditionally); lookups only return rules of current versions; a node holds rules of one source.  The same "
                   "theorems hold for every combination of the repairs (pinned commit: six guards); every finding has a `_refuted` / "
-                  "`_pinned_refuted` witness.  The model is tied to the Go code by running ~1200 (quick) / 30000 (thorough) generated "
+                  "`_pinned_refuted` witness.  The model is tied to the Go code by running ~1200 (quick) / 24000 (thorough) generated "
                   "histories per run through the real repository and comparing, after every prefix, outcomes and lookups with the "
                   "transcribed tree, with the abstract model and with a freshly built REAL repository (the property stated directly "
                   "on the implementation).",
